@@ -1831,3 +1831,166 @@ Proof.
   destruct (copy_assert_fails s2 o a). exact P2. apply Pk_objs_res; auto.
 Qed.
 End WithSchema9.
+
+Section WithSchema10.
+Variable sch : schema.
+Hypothesis WF : wf_schema sch = true.
+
+Lemma Pk_with_set_attr : forall s h a k,
+  (forall o tg r, Pk sch (fst (k o tg r))) -> Pk sch s -> Pk sch (fst (with_set_attr sch s h a k)).
+Proof.
+  intros s h a k K P. unfold with_set_attr. destruct (hget s h) as [o|]; [|exact P].
+  destruct (get_attr sch (obj_ent s o) a) as [at_|]; [|exact P]. destruct (a_kind at_); try exact P. apply K.
+Qed.
+
+Lemma Pk_count_op : forall s h a, Pk sch s -> Pk sch (fst (count_op sch s h a)).
+Proof.
+  intros s h a P. unfold count_op. apply Pk_with_set_attr; auto. intros o tg r.
+  destruct (is_del (obj_st s o)). exact P.
+  assert (P0 : Pk sch (coll_ensure s o a)) by (eapply kframe_Pk; [apply kframe_coll_ensure|exact P]).
+  destruct (sd_count (get_sd (coll_ensure s o a) o a)).
+  - destruct (has_sd s o a); assumption.
+  - cbn [fst]. eapply kframe_Pk; [apply kframe_put_sd|exact P0].
+Qed.
+
+Lemma Pk_isempty_op : forall s h a, Pk sch s -> Pk sch (fst (isempty_op sch s h a)).
+Proof.
+  intros s h a P. unfold isempty_op. apply Pk_with_set_attr; auto. intros o tg r.
+  destruct (is_del (obj_st s o)). exact P.
+  assert (P0 : Pk sch (coll_ensure s o a)) by (eapply kframe_Pk; [apply kframe_coll_ensure|exact P]).
+  repeat (match goal with |- context [if ?c then _ else _] => destruct c end; try exact P0).
+  pose proof (Pk_auto_flush sch _ P0) as P1. destruct (auto_flush sch (coll_ensure s o a)) as [s1 u|s1 er]; [|exact P1].
+  match goal with |- context [load_rows sch s1 tg ?rows] => pose proof (Pk_load_rows sch rows s1 tg P1) as P2; destruct (load_rows sch s1 tg rows) as [s2 os|s2 er] end; [|exact P2].
+  destruct (sd_items (get_sd s2 o a)). cbn [fst]. eapply kframe_Pk; [apply kframe_put_sd|exact P2]. exact P2.
+Qed.
+
+Lemma Pk_contains_op : forall s h a h2, Pk sch s -> Pk sch (fst (contains_op sch s h a h2)).
+Proof.
+  intros s h a h2 P. unfold contains_op. apply Pk_with_set_attr; auto. intros o tg r.
+  destruct (hget s h2) as [item|]; [|exact P]. destruct (is_del (obj_st s o)). exact P.
+  destruct (negb (Nat.eqb (obj_ent s item) tg)). exact P.
+  destruct (obj_val s item r) eqn:OV. exact P.
+  pose proof (Pk_auto_flush sch s P) as P1. destruct (auto_flush sch s) as [s1 u|s1 er]; [|exact P1].
+  pose proof (Pk_load_obj_noflush sch s1 item P1) as P2. destruct (load_obj_noflush sch s1 item) as [s2 u2|s2 er]; [|exact P2].
+  destruct (obj_val s2 item r); exact P2.
+Qed.
+
+Lemma Pk_getpk_op : forall s e v, Pk sch s -> Pk sch (fst (getpk_op sch s e v)).
+Proof.
+  intros s e v P. unfold getpk_op. destruct (nth_error sch e) as [en|]; [|exact P].
+  destruct v; try exact P.
+  - destruct (e_auto en); [|exact P]. pose proof (Pk_auto_flush sch s P) as P1. destruct (auto_flush sch s); exact P1.
+  - destruct (idx_get s e 0 (VInt z)) as [o|].
+    + destruct (status_eqb (obj_st s o) SMarked). exact P. pose proof (Pk_handle_of sch s o P) as Q. destruct (handle_of s o). exact Q.
+    + pose proof (Pk_auto_flush sch s P) as P1. destruct (auto_flush sch s) as [s1 u|s1 er]; [|exact P1].
+      destruct (find_row (tab (s_db s1) e) z) as [r|]; [|exact P1].
+      pose proof (Pk_load_row sch s1 e r P1) as P2. destruct (load_row sch s1 e r) as [s2 [o|]|s2 er]; try exact P2.
+      pose proof (Pk_handle_of sch s2 o P2) as Q. destruct (handle_of s2 o). exact Q.
+Qed.
+
+Lemma Pk_getby_op : forall s e a v, Pk sch s -> Pk sch (fst (getby_op sch s e a v)).
+Proof.
+  intros s e a v P. unfold getby_op. destruct (get_attr sch e a) as [at_|]; [|exact P].
+  destruct (negb (handles_ok s (arg_handles v))). exact P.
+  destruct (a_kind at_) eqn:K.
+  4:{ destruct (validate_set s tgt (Some v)); exact P. }
+  all: destruct (validate s at_ (Some v)) as [cv| |]; try exact P;
+    (match goal with |- context [match ?c with Some _ => _ | None => _ end] => destruct c as [o|] end;
+     [ repeat (match goal with |- context [if ?c then _ else _] => destruct c end; try exact P);
+       pose proof (Pk_handle_of sch s o P) as Q; destruct (handle_of s o); exact Q |]);
+    pose proof (Pk_auto_flush sch s P) as P1; destruct (auto_flush sch s) as [s1 u|s1 er]; [|exact P1];
+    match goal with |- context [if ?c then _ else _] => destruct c end; [exact P1|];
+    match goal with |- context [load_rows sch s1 ?ee ?rows] => pose proof (Pk_load_rows sch rows s1 ee P1) as P2; destruct (load_rows sch s1 ee rows) as [s2 [|o os]|s2 er] end; try exact P2;
+    pose proof (Pk_handle_of sch s2 o P2) as Q; destruct (handle_of s2 o); exact Q.
+Qed.
+
+Lemma Pk_select_op : forall s e a v, Pk sch s -> Pk sch (fst (select_op sch s e a v)).
+Proof.
+  intros s e a v P. unfold select_op. destruct (get_attr sch e a) as [at_|]; [|exact P].
+  destruct (negb (handles_ok s (arg_handles v))). exact P.
+  destruct (a_kind at_); try exact P;
+    (destruct (validate s at_ (Some v)) as [cv| |]; try exact P;
+     pose proof (Pk_auto_flush sch s P) as P1; destruct (auto_flush sch s) as [s1 u|s1 er]; [|exact P1];
+     match goal with |- context [load_rows sch s1 ?ee ?rows] => pose proof (Pk_load_rows sch rows s1 ee P1) as P2; destruct (load_rows sch s1 ee rows) as [s2 os|s2 er] end; [|exact P2];
+     apply Pk_objs_res; auto).
+Qed.
+
+Lemma Pk_selectall_op : forall s e, Pk sch s -> Pk sch (fst (selectall_op sch s e)).
+Proof.
+  intros s e P. unfold selectall_op. destruct (nth_error sch e); [|exact P].
+  pose proof (Pk_auto_flush sch s P) as P1. destruct (auto_flush sch s) as [s1 u|s1 er]; [|exact P1].
+  pose proof (Pk_load_rows sch (tab (s_db s1) e) s1 e P1) as P2. destruct (load_rows sch s1 e (tab (s_db s1) e)) as [s2 os|s2 er]; [|exact P2].
+  apply Pk_objs_res; auto.
+Qed.
+
+Lemma Pk_reset : forall d, Pk sch (reset_sess d).
+Proof.
+  intros. right. split.
+  - intros e k v o. unfold idx_get, get_obj, reset_sess. cbn [s_idx s_objs aget]. split. discriminate.
+    intros (ob & H & _). destruct o; discriminate.
+  - intros o ob H. unfold get_obj, reset_sess in H. cbn [s_objs] in H. destruct o; discriminate.
+Qed.
+
+Lemma Pk_keep_declined : forall s0 s1, Pk sch s1 -> Pk sch (keep_declined s0 s1).
+Proof. intros. unfold keep_declined. destruct (s_declined s0); exact H. Qed.
+
+Lemma Pk_step : forall s op, Pk sch s -> Pk sch (fst (step sch s op)).
+Proof.
+  intros s op P. unfold step. destruct (s_declined s). exact P.
+  destruct op.
+  - apply Pk_new_op; auto.
+  - apply Pk_set_op; auto.
+  - apply Pk_setmany_op; auto.
+  - apply Pk_delete_op; auto.
+  - apply Pk_coll_op; auto.
+  - apply Pk_coll_op; auto.
+  - apply Pk_coll_op; auto.
+  - apply Pk_read_op; auto.
+  - unfold pk_op. destruct (hget s h); exact P.
+  - apply Pk_count_op; auto.
+  - apply Pk_isempty_op; auto.
+  - apply Pk_contains_op; auto.
+  - apply Pk_getpk_op; auto.
+  - apply Pk_getby_op; auto.
+  - apply Pk_select_op; auto.
+  - apply Pk_selectall_op; auto.
+  - unfold flush_op. apply Pk_lift_unit. apply Pk_flush; auto.
+  - unfold commit_op. pose proof (Pk_flush sch s P) as P1. destruct (flush sch s) as [s1 u|s1 er]; cbn [fst].
+    exact P1. apply Pk_keep_declined. apply Pk_reset.
+  - unfold rollback_op. cbn [fst]. apply Pk_keep_declined. apply Pk_reset.
+  - unfold newsession_op. destruct (flush sch s) as [s1 u|s1 er]; cbn [fst]; apply Pk_keep_declined; apply Pk_reset.
+Qed.
+
+Lemma Pk_init : Pk sch (init_sess sch).
+Proof.
+  right. split.
+  - intros e k v o. unfold idx_get, get_obj, init_sess. cbn [s_idx s_objs aget]. split. discriminate.
+    intros (ob & H & _). destruct o; discriminate.
+  - intros o ob H. unfold get_obj, init_sess in H. cbn [s_objs] in H. destruct o; discriminate.
+Qed.
+
+Lemma Pk_run : forall ops, Pk sch (run sch ops).
+Proof.
+  intros ops. unfold run. generalize (init_sess sch) Pk_init. induction ops as [|op t IH]; intros s P; simpl. exact P.
+  apply IH. apply Pk_step. exact P.
+Qed.
+
+(* C11 *)
+Theorem idx_invariant_all_histories : forall ops, s_dirty (run sch ops) = O -> Inv_idx sch (run sch ops).
+Proof. intros ops D. destruct (Pk_run ops) as [H|[H _]]. contradiction. exact H. Qed.
+
+Theorem identity_map_functional : forall ops o1 o2 ob1 ob2 z,
+  s_dirty (run sch ops) = O ->
+  get_obj (run sch ops) o1 = Some ob1 -> get_obj (run sch ops) o2 = Some ob2 ->
+  o_ent ob1 = o_ent ob2 -> o_pk ob1 = Some z -> o_pk ob2 = Some z ->
+  is_gone (o_st ob1) = false -> is_gone (o_st ob2) = false -> o1 = o2.
+Proof.
+  intros ops o1 o2 ob1 ob2 z D G1 G2 E P1 P2 L1 L2.
+  pose proof (idx_invariant_all_histories ops D) as I.
+  assert (H1 : idx_get (run sch ops) (o_ent ob1) O (VInt z) = Some o1).
+  { apply (I (o_ent ob1) O (VInt z) o1). exists ob1. repeat split; auto. unfold kview. simpl. rewrite L1, P1. reflexivity. }
+  assert (H2 : idx_get (run sch ops) (o_ent ob1) O (VInt z) = Some o2).
+  { apply (I (o_ent ob1) O (VInt z) o2). exists ob2. repeat split; auto. unfold kview. simpl. rewrite L2, P2. reflexivity. }
+  congruence.
+Qed.
+End WithSchema10.
